@@ -121,6 +121,7 @@ impl<B: Backend> AudioManager<B> {
 		let (mut track, handle) =
 			builder.build(self.renderer_shared.clone(), self.internal_buffer_size);
 		track.init_effects(self.renderer_shared.sample_rate.load(Ordering::SeqCst));
+		verif_hook!("track.add.loaded", 0, 0);
 		self.resource_controllers
 			.sub_track_controller
 			.insert(track)?;
@@ -141,6 +142,7 @@ impl<B: Backend> AudioManager<B> {
 			position.into().to_(),
 		);
 		track.init_effects(self.renderer_shared.sample_rate.load(Ordering::SeqCst));
+		verif_hook!("track.add.loaded", 0, 0);
 		self.resource_controllers
 			.sub_track_controller
 			.insert(track)?;
@@ -159,6 +161,7 @@ impl<B: Backend> AudioManager<B> {
 		let id = SendTrackId(key);
 		let (mut track, handle) = builder.build(id, self.internal_buffer_size);
 		track.init_effects(self.renderer_shared.sample_rate.load(Ordering::SeqCst));
+		verif_hook!("track.add.loaded", 0, 0);
 		self.resource_controllers
 			.send_track_controller
 			.insert_with_key(key, track);
